@@ -5,6 +5,7 @@ package cl
 import (
 	"fmt"
 	"io"
+	"strings"
 
 	"github.com/ohler55/slip"
 )
@@ -66,6 +67,7 @@ func (f *Defun) Call(s *slip.Scope, args slip.List, depth int) (result slip.Obje
 		slip.TypePanic(s, depth, "name argument to defun", args[0], "symbol")
 	}
 	pkg, low, _ := slip.UnpackName(string(name))
+	low = strings.ToLower(low)
 	if pkg == nil {
 		pkg = slip.CurrentPackage
 	}
